@@ -60,7 +60,7 @@ add(ce("visit_file_body_piecewise", r"bool CatalogEntry::visit_file_body_piecewi
        "static bool CatalogEntry_visit_file_body_piecewise(const struct CatalogEntry *self, struct DataAccess *media, struct visitor *visitor)",
        [(r"auto buf = media\.read_block\(([^;]*)\);", r"opt_SectorBuffer buf = DataAccess_read_block(media, \1);", 1),
         (r"if \(!buf\)", "if (!buf.has)", 1),
-        (r'throw BadFileSystem\("[^"]*"\);', "{ VERIF_THROW(BadFileSystem, 0); return false; }", 1),
+        (r'throw BadFileSystem\("[^"]*"\);', "{ VERIF_THROW(BadFileSystem, 0); return false; }", ">=0"),
         (r"buf->begin\(\)", "buf.val.d", 2), (r"\bvisitor\(", "visitor_call(visitor, ", 1),
         ASSERT(1),
         (r"(for \(sector_count_type sec = start; sec <= end; \+\+sec\))", r"\1 VISIT_LOOP_CONTRACT", 1)],
@@ -1124,6 +1124,14 @@ add({"name": "dump_get_arg", "file": "dfs/cmd_dump.cc",
                (r"return std::nullopt;", "{ struct opt_long none_; none_.has = 0; none_.val = 0; return none_; }", ">=1"),
                (r"return n;", "{ struct opt_long some_; some_.has = 1; some_.val = n; return some_; }", 1)],
      "dropped": ["diagnostic texts"]})
+# dump-sector: the limits its two arguments are checked against (C04: every (track, sector) of the surface and nothing beyond)
+add({"name": "dump_sector_limits", "file": "dfs/cmd_dump.cc",
+     "anchor": r"auto track = get_arg\(\"track\",", "region_end": r"const sector_count_type sec_addr = ",
+     "sig": "static bool dump_sector_limits(const struct Geometry *geom_, struct opt_long *track_out, struct opt_long *sector_out)",
+     "region_epilogue": "*track_out = track; *sector_out = sector; return true;\n",
+     "rules": [(r"auto (\w+) = get_arg\(\"\w+\", args\[(\d+)\], ([^;]*)\);", r"struct opt_long \1 = get_arg_v(\2, \3);", 2),
+               (r"if \(!(track|sector)\)", r"if (!\1.has)", 2),
+               (r"\bgeom\.", "geom_->", ">=2")]})
 add({"name": "dump_sector_addr", "file": "dfs/cmd_dump.cc",
      "anchor": r"const sector_count_type sec_addr = ", "region_end": r"auto got = drive->read_block\(sec_addr\);",
      "sig": "static sector_count_type dump_sector_addr(struct opt_long track, struct opt_long sector, const struct Geometry *geom_)",
@@ -1486,6 +1494,15 @@ add({"name": "hfe_side_blocks", "file": "dfs/img_hfe.cc",
 add({"name": "PicTrack_track_len", "file": "dfs/img_hfe.cc", "anchor": r"unsigned long track_len\(\) const",
      "sig": "static unsigned long PicTrack_track_len(const struct PicTrack *self)",
      "pre": "#define track_len_ (self->track_len_)\n", "post": "#undef track_len_\n", "rules": []})
+# compute_geometry of the HxC MFM reader (C05/C06: the geometry a side is attached with): cylinders = distinct cylinder numbers,
+# sectors per track = distinct record numbers
+add({"name": "hxc_compute_geometry", "file": "dfs/img_hxcmfm.cc", "anchor": r"DFS::Geometry compute_geometry\(unsigned int sides,\s*const std::vector<Sector>& sectors\)",
+     "sig": "static void hxc_compute_geometry(unsigned int sides, size_t sectors_n)",
+     "rules": [(r"std::set<unsigned char> cylinders, records;", "struct uset cylinders = { SET_CYL, 0 }, records = { SET_REC, 0 };", 1),
+               (r"for \(const Track::Sector s : sectors\)", "for (size_t si_ = 0; si_ < sectors_n; ++si_) GEOM_LOOP_CONTRACT", 1),
+               (r"(\w+)\.insert\((?:\w+\.end\(\), )?s\.address\.(\w+)\);", r"uset_insert(&\1, si_, FIELD_\2);", ">=1"),
+               (r"\bsectors\.size\(\)", "sectors_n", ">=0"), (r"\b(cylinders|records)\.size\(\)", r"uset_size(&\1)", ">=0"),
+               (r"return DFS::Geometry\(((?:[^();]|\([^()]*\))*),\s*DFS::Encoding::(\w+)\);", r"geometry_model(\1, Encoding_\2); return;", 1)]})
 # the HxcMfmFile constructor: which valid headers are supported, and one drive per side (C05: one or two sides)
 add({"name": "hxc_check_supported", "file": "dfs/img_hxcmfm.cc",
      "anchor": r"if \(header->sides [<>=!]+ \w+\)\s*\{\s*std::ostringstream ss;\s*ss << \"image file encodes more than 2 sides", "region_end": r"const std::map<TrackDataKey, TrackData> track_metadata = get_track_metadata\(\);",
